@@ -249,7 +249,8 @@ def run_c20(pid, tier, seed):
     res0 = None
     for name, prefix, env in configs:
         dump = os.path.join(outdir, name + ".tsv")
-        e = common.env_offline(dict(env, VERIF_DEPTH=depth))
+        # budgets are deterministic (transition counts); the wall-clock safety net must never decide what is explored here
+        e = common.env_offline(dict(env, VERIF_DEPTH=depth, VERIF_THEORY_WALL="360000"))
         os.makedirs(os.path.join(common.BUILD, "out"), exist_ok=True)
         out = os.path.join(outdir, name + ".json")
         p = subprocess.run(prefix + [binary, "C20", "--tier", tier, "--out", out, "--dump-transcripts", dump], env=e,
@@ -258,6 +259,8 @@ def run_c20(pid, tier, seed):
             raise common.MachineryError(f"engine failed under configuration {name}: {p.stderr.decode()[-2000:]}")
         with open(out) as f:
             r = json.load(f)
+        if any(t.get("cap_hit") == "wall-clock safety net" for t in r.get("per_theory", [])):
+            raise common.MachineryError(f"configuration {name}: the wall-clock safety net cut the exploration; transcripts are not comparable")
         if res0 is None:
             res0 = r
         with open(dump) as f:
